@@ -69,6 +69,13 @@ pub enum VOp {
     Push(u32),
     PushWith(u32),
     Insert(usize, u32),
+    /// push_mut / push_mut_with / insert_mut: like their plain twins, but hand back `&mut T`
+    PushMut(u32),
+    PushMutWith(u32),
+    InsertMut(usize, u32),
+    /// BumpVec only: rebuild the vector from its own elements through another constructor
+    /// (0 = from_owned_slice_in(Vec), 1 = from_owned_slice_in(Box<[T]>), 2 = from_iter_exact_in, 3 = from_iter_in)
+    Rebuild(u8),
     Remove(usize),
     SwapRemove(usize),
     Pop,
@@ -100,12 +107,14 @@ pub enum VOp {
     IntoIter(usize, usize),
     MapInPlace,
     Map,
+    /// BumpVec::try_map
+    TryMap,
     IntoFlattenedNoop,
 }
 
 impl VOp {
     pub fn is_finisher(&self) -> bool {
-        matches!(self, VOp::IntoIter(..) | VOp::MapInPlace | VOp::Map | VOp::IntoFlattenedNoop)
+        matches!(self, VOp::IntoIter(..) | VOp::MapInPlace | VOp::Map | VOp::TryMap | VOp::IntoFlattenedNoop)
     }
 }
 
@@ -163,6 +172,35 @@ pub fn model_apply(m: &mut Vec<u32>, kind: Kind, op: &VOp, fixed_cap: usize) -> 
                 panic!("model: fixed vector is full");
             }
             m.insert(i, v);
+            Ret::none()
+        }
+        VOp::PushMut(v) | VOp::PushMutWith(v) => {
+            if kind == Kind::Boxed {
+                return None;
+            }
+            if full(1) {
+                panic!("model: fixed vector is full");
+            }
+            if rev { m.insert(0, v) } else { m.push(v) }
+            Ret::vals(vec![v])
+        }
+        VOp::InsertMut(i, v) => {
+            if kind == Kind::Boxed {
+                return None;
+            }
+            if i > n {
+                panic!("model: insertion index out of bounds");
+            }
+            if full(1) {
+                panic!("model: fixed vector is full");
+            }
+            m.insert(i, v);
+            Ret::vals(vec![v])
+        }
+        VOp::Rebuild(_) => {
+            if kind != Kind::BumpVec {
+                return None;
+            }
             Ret::none()
         }
         VOp::Remove(i) => Ret::vals(vec![m.remove(i)]),
@@ -411,7 +449,7 @@ pub fn model_apply(m: &mut Vec<u32>, kind: Kind, op: &VOp, fixed_cap: usize) -> 
             }
             Ret::vals(m.clone())
         }
-        VOp::Map => {
+        VOp::Map | VOp::TryMap => {
             if kind != Kind::BumpVec {
                 return None;
             }
@@ -553,6 +591,21 @@ macro_rules! grow_ops {
             VOp::Insert(i, v) => {
                 $self.insert(i, <$T>::new(v));
                 return Some(Ret::none());
+            }
+            VOp::PushMut(v) => {
+                let r: &mut $T = $self.push_mut(<$T>::new(v));
+                return Some(Ret::vals(vec![r.val()]));
+            }
+            VOp::PushMutWith(v) => {
+                let r: &mut $T = $self.push_mut_with(|| {
+                    tick();
+                    <$T>::new(v)
+                });
+                return Some(Ret::vals(vec![r.val()]));
+            }
+            VOp::InsertMut(i, v) => {
+                let r: &mut $T = $self.insert_mut(i, <$T>::new(v));
+                return Some(Ret::vals(vec![r.val()]));
             }
             VOp::Resize(k, v) => {
                 $self.resize(k, <$T>::new(v));
@@ -770,6 +823,23 @@ where
                 *self = BumpVec::from_parts(fixed, a);
                 Some(Ret::none())
             }
+            VOp::Rebuild(how) => {
+                let bump: &'b B<S> = *self.allocator();
+                let old: Vec<T> = std::mem::replace(self, BumpVec::new_in(bump)).into_iter().collect();
+                *self = match how {
+                    0 => BumpVec::from_owned_slice_in(old, bump),
+                    1 => BumpVec::from_owned_slice_in(old.into_boxed_slice(), bump),
+                    2 => BumpVec::from_iter_exact_in(old.into_iter().map(|e| {
+                        tick();
+                        e
+                    }), bump),
+                    _ => BumpVec::from_iter_in(old.into_iter().map(|e| {
+                        tick();
+                        e
+                    }), bump),
+                };
+                Some(Ret::none())
+            }
             _ => None,
         }
     }
@@ -788,6 +858,15 @@ where
                     tick();
                     (e.val() + 2000) as u64
                 });
+                Some(Ret::vals(v.iter().map(|e| *e as u32).collect()))
+            }
+            VOp::TryMap => {
+                let v = self
+                    .try_map(|e| {
+                        tick();
+                        (e.val() + 2000) as u64
+                    })
+                    .unwrap_or_else(|_| std::panic::panic_any(OracleFail("try_map failed although memory is available".into())));
                 Some(Ret::vals(v.iter().map(|e| *e as u32).collect()))
             }
             _ => None,
